@@ -132,3 +132,16 @@ Fixpoint fills_ok (buffer base : Z) (bins : list (list Z)) (am : appmap) (ps : l
         /\ (forall x y p, sels_select (ffcs_of one) (x, y, p) = requested (cores_of_targets ts) x y p)
         /\ fills_ok buffer base bins r rest
   end.
+
+(* ---------------------------------------------------------------- guards of "no other exception" *)
+(* the machine has a chip to talk to, its vcpu blocks lie in the 32-bit address space, every core is in
+   a state that rig's AppState enumeration knows *)
+Definition machine_answers (m : machine) : Prop :=
+  m_chips m <> [] /\ m_vcpu m + VCPU_SIZE * N_CORES <= 2 ^ 32
+  /\ (forall c s, core_at m c = Some s -> is_member (cs_state s) AppState_members = true).
+
+(* the files exist and fit the address space at the load address; the requested chips exist *)
+Definition map_present (bins : list (list Z)) (m : machine) (am : appmap) : Prop :=
+  (forall b, In b (map fst am) ->
+     exists data, nth_error bins (Z.to_nat b) = Some data /\ m_base m + zlen data <= 2 ^ 32)
+  /\ (forall b x y p, In (b, (x, y, p)) (named am) -> In (x, y) (map fst (m_chips m))).
